@@ -431,6 +431,15 @@ func runOne(w *cl.World, c *Case, base string) (*Result, error) {
 			// database layer cannot open is retried; a node that panics or fails on a readable copy is an observable
 			var err error
 			nodeFailure := ""
+			nodeFailures := 0
+			// let the old node's background loop finish what the delivered events queued, so that the
+			// copy is not taken in the middle of its writes
+			func() {
+				defer func() { recover() }()
+				n.Chain.VerifCasper().VerifSettle()
+				n.Chain.VerifCasper().VerifSettle()
+			}()
+			time.Sleep(5 * time.Millisecond)
 			for attempt := 0; attempt < 8; attempt++ {
 				ndir := fmt.Sprintf("%s_r%d_%d", dir, restarts, attempt)
 				if err = copyDir(curDir, ndir); err == nil {
@@ -438,11 +447,17 @@ func runOne(w *cl.World, c *Case, base string) (*Result, error) {
 				}
 				if err == nil {
 					curDir = ndir
+					nodeFailure = ""
 					break
 				}
 				if !strings.Contains(err.Error(), "Error initializing DB") && !strings.Contains(err.Error(), "leveldb") {
+					// a torn copy of a live database can also surface as a decoding error inside the node:
+					// only a failure that repeats on three fresh copies is the node's own
 					nodeFailure = err.Error()
-					break
+					nodeFailures++
+					if nodeFailures >= 3 {
+						break
+					}
 				}
 				os.RemoveAll(ndir)
 				time.Sleep(25 * time.Millisecond)
